@@ -7,7 +7,7 @@ from sx.values import SymBytes, mk_bytes, items_of, bytes_eq
 from sx.containers import SDict
 from sx import stubs
 from . import vmstep
-from .common import outcome_of, exc_name, pinned_clock
+from .common import outcome_of, exc_name, pinned_clock, pinned_random
 
 FUNCTIONS = ['functions:run_auth_scripts', 'functions:run_script', 'functions:run_tape', 'functions:set_tape_flags',
              'functions:OP_IF', 'functions:OP_IF_ELSE', 'functions:OP_TRY_EXCEPT', 'functions:OP_LOOP', 'functions:OP_DEF',
@@ -211,7 +211,7 @@ def _real_scripts(inputs, params):
 def c_e2e(inputs, params):
     import tapescript
     W, L = _real_scripts(inputs, params)
-    with pinned_clock(inputs.get('now', 0)):
+    with pinned_clock(inputs.get('now', 0)), pinned_random(inputs):     # the verdict of e.g. SIZE RANDOM CHECK_TIMESTAMP depends on both
         return {'verdict': tapescript.run_auth_scripts([W, L], {'sigfield1': b'm'})}
 
 
@@ -219,10 +219,11 @@ def r_e2e(inputs, params, obligation):
     import tapescript
     import tapescript.functions as RF
     W, L = _real_scripts(inputs, params)
-    with pinned_clock(inputs.get('now', 0)):
+    with pinned_clock(inputs.get('now', 0)), pinned_random(inputs) as rnd:
         r = outcome_of(tapescript.run_auth_scripts, [W, L], {'sigfield1': b'm'})
         if r[0] == 'raise':
             return {'reproduced': True, 'raised': repr(r[1])}
+        rnd['k'] = 0                      # the oracle run sees the same random stream as the implementation run
         want = _oracle(RF, tapescript, [W, L], {'sigfield1': b'm'})
     return {'reproduced': r[1] != want, 'got': r[1], 'want': want, 'witness': W.hex(), 'lock': L.hex()}
 
